@@ -152,6 +152,37 @@ Definition model_literal_keys (bytes : list byte) (cfg : config) : list N :=
   | _ => []
   end.
 
+Definition model_states (bytes : list byte) (cfg : config) : option (list vstate) :=
+  match try_from bytes with
+  | Ok code => match model_run code cfg with RDone m => Some (map fst (v_stored m)) | _ => None end
+  | _ => None
+  end.
+
+(* C05 with the ground truth from the MODEL's run: which storage accesses were executed, and with which key trees,
+   is read off the model's retired states, not off the implementation's (a change that makes the implementation
+   execute dead code, or invent accesses, is then seen as a phantom slot).  0 when the model's run does not finish. *)
+Definition c05m_code (bytes : list byte) (cfg : config) (c : c056case) : N :=
+  match c05_code c with
+  | 0 =>
+      match xa_class (s_res c), model_states bytes cfg with
+      | 0, Some sts =>
+          let slots := map e_index (xa_layout (s_res c)) in
+          let none_executed := forallb (fun st => match sto_known st, sto_sym st with [], [] => true | _, _ => false end) sts in
+          if none_executed then (match slots with [] => 0 | _ => 70 end)
+          else
+            let ks := flat_map (fun st => flat_map known_leaves (storage_keys st)) sts in
+            let att := ks ++ map snd (filter (fun p => existsb (N.eqb (fst p)) ks) (s_preimages c)) ++ s_strings c
+                          ++ flat_map (fun h => map (fun k => (h + k) mod 2 ^ 256) ks) (s_strings c) in
+            match filter (fun s => negb (existsb (N.eqb s) att)) slots with
+            | [] => 0
+            | bad => if forallb (fun w => existsb (fun st => existsb (in_sha3 false w) (storage_values st ++ recorded st ++ stack st)) sts) bad
+                     then 61 else 71
+            end
+      | _, _ => 0
+      end
+  | n => n
+  end.
+
 Definition c06m_code (bytes : list byte) (cfg : config) (c : c056case) : N :=
   match c06_code c with
   | 0 =>
